@@ -11,6 +11,7 @@ why = {
  "C04-4": "snap tolerance 1e-9 → 1e-12 in `lineIntersect`: the value of an absolute tolerance; no structural reading (W8 decides only that parameters one ulp apart are merged, W15 that the edge tests and the snapping use the *same* tolerance, which they still do).",
  "C14-8": "`ImportTriMesh` builds its R-tree by incremental `Insert` instead of bulk loading; the third-party tree dereferences nil for a NaN/Inf bounding box. The panic is inside `rtreego`, which the checks trust and do not analyse.",
  "C20-8": "`Circumcenter` selects the bisector of the *flatter* edge for y_c (the flipped conditioning choice): algebraically the same centre (Y4 holds), wrong only through cancellation for nearly horizontal edges; numeric.",
+ "C05-14": "`mcToTriangles` looks up the complement of configurations above 127 and swaps the winding: the kernel reader no longer recognises the emitted primitive and the checks of C05 and C06 stop with exit 2 (an alarm, but an undecided one: only a reported violation counts as a detection here).",
  "C20-11": "`InCircumcircle` compares with the package tolerance 1e-9 instead of its own epsilon 1e-12: the value of an absolute tolerance.",
 }
 out = []
